@@ -178,6 +178,83 @@ static void run_awgn(Ctx& ctx, bool T) {
     }
 }
 
+// ---- long records with short-period tones: any estimate of the signal level taken from a sub-sampled or strided part of
+// the record aliases on a tone whose period divides the stride.  Real tones and complex "I only" tones with
+// f in {1/4, 1/3, 1/6, 1/8, 1/10, 3/10} cycles/sample, three phases, two amplitudes, an integer and a fractional SNR.
+static void run_awgn_tones(Ctx& ctx, bool T) {
+    if (!ctx.wants("awgn.tones")) return;
+    std::vector<int> lens = {131072, 200000, 262144};
+    if (T) {
+        lens.push_back(1000000);
+        lens.push_back(1 << 20);
+    }
+    const int FP[6] = {1, 1, 1, 1, 1, 3}, FQ[6] = {4, 3, 6, 8, 10, 10};
+    const double PH[3] = {0.0, 1.5707963267948966, 0.3};
+    int caseno = 0;
+    for (int N : lens)
+        for (int cplx = 0; cplx < 2; ++cplx)
+            for (int fi = 0; fi < 6; ++fi)
+                for (int ph = 0; ph < 3; ++ph) {
+                    const int seed = (caseno++) % 100;
+                    if (!ctx.take("awgn.tones", P().kv("N", N).kv("type", cplx ? "cmplx-I-only" : "real").kv("f", fmt("%d/%d", FP[fi], FQ[fi])).kv("phase", PH[ph]).kv("seed", seed))) continue;
+                    ctx.nontrivial();
+                    std::vector<double> u((size_t)N);
+                    for (int i = 0; i < N; ++i) u[(size_t)i] = std::cos(2 * 3.14159265358979323846 * (double)(((long long)i * FP[fi]) % FQ[fi]) / FQ[fi] + PH[ph]);
+                    bool failed = false;
+                    for (double amp : {1.0, 1e-3})
+                        for (double snr : {10.0, 20.5}) {
+                            arr_real xr(cplx ? 0 : N);
+                            arr_cmplx xc(cplx ? N : 0);
+                            ld px = 0;
+                            for (int i = 0; i < N; ++i) {
+                                const double v = u[(size_t)i] * amp;
+                                if (cplx) xc[i] = cmplx_t(v, 0);
+                                else xr[i] = v;
+                                px += (ld)v * v;
+                            }
+                            px /= N;
+                            d::rng(seed);
+                            arr_real yr;
+                            arr_cmplx yc;
+                            if (cplx) yc = d::awgn(xc, snr);
+                            else yr = d::awgn(xr, snr);
+                            if ((cplx ? yc.size() : yr.size()) != N) {
+                                if (!failed) ctx.fail("awgn", fmt("size %d", cplx ? yc.size() : yr.size()), fmt("%d", N));
+                                failed = true;
+                                continue;
+                            }
+                            ld s2 = 0, l1r = 0, l1i = 0;
+                            cld mean = 0, prev = 0;
+                            for (int i = 0; i < N; ++i) {
+                                const cld w = cplx ? cld((ld)yc[i].re - xc[i].re, (ld)yc[i].im - xc[i].im) : cld((ld)yr[i] - xr[i], 0);
+                                s2 += std::norm(w);
+                                mean += w;
+                                if (i) {
+                                    const cld c = prev * std::conj(w);
+                                    l1r += c.real();
+                                    l1i += c.imag();
+                                }
+                                prev = w;
+                            }
+                            const ld target = px * powl(10.0L, -(ld)snr / 10);
+                            const double ratio = (double)(s2 / N / target), band = 6 * std::sqrt((cplx ? 1.0 : 2.0) / N);
+                            const double mdev = (double)(std::abs(mean) / N / sqrtl(target)) * std::sqrt((double)N);
+                            const double r1 = (double)(sqrtl(l1r * l1r + l1i * l1i) / s2) * std::sqrt((double)N);
+                            if (std::isfinite(ratio)) ctx.worst("awgn.tones |noise power ratio - 1| / band", std::fabs(ratio - 1) / band);
+                            if (std::isfinite(mdev)) ctx.worst("awgn.tones |mean| in standard errors (limit 6)", mdev);
+                            if (std::isfinite(r1)) ctx.worst("awgn.tones lag-1 autocorrelation in standard errors (limit 6)", r1);
+                            if (failed) continue;
+                            if (!(std::fabs(ratio - 1) <= band)) {
+                                failed = true;
+                                ctx.fail("awgn", fmt("noise power / requested = %.6f (snr %g dB, amplitude %g)", ratio, snr, amp), fmt("1 +- %.4f (6 standard errors)", band), P().kv("cls", "power").kv("snr", snr).kv("amp", amp));
+                            } else if (!(mdev <= 6) || !(r1 <= 6)) {
+                                failed = true;
+                                ctx.fail("awgn", fmt("noise mean %.2f / lag-1 autocorrelation %.2f standard errors (snr %g, amplitude %g)", mdev, r1, snr, amp), "<= 6", P().kv("cls", "mean/lag1").kv("snr", snr).kv("amp", amp));
+                            }
+                        }
+                }
+}
+
 // ------------------------------------------------------------------------------------------- reproducibility of the streams
 static const int NOPS = 9;
 static const char* OPN[NOPS] = {"rand", "rand3", "randab2", "randn", "randn3", "randi5", "randir3", "awgnr", "awgnc"};
@@ -595,5 +672,6 @@ int main(int argc, char** argv) {
     run_measure(ctx, T);
     run_measure_lowfund(ctx, T);
     run_awgn(ctx, T);
+    run_awgn_tones(ctx, T);
     return ctx.finish();
 }
